@@ -29,6 +29,8 @@ pub type Headers = BTreeMap<String, String>;
 pub const H_ID: &str = "vid";
 pub const H_SCRIPT: &str = "vs";
 pub const H_SEQ: &str = "vseq";
+/// request header: ask the harness service to add a response header `p` of this many bytes
+pub const H_RESP_PAD: &str = "vrh";
 pub const NEVER: u64 = u64::MAX;
 
 pub fn hash_bytes(b: &[u8]) -> u64 {
@@ -278,7 +280,7 @@ impl Drop for HandlerGuard {
     }
 }
 
-pub fn build_response(id: Option<u64>, script: &Script, req_body: &Bytes, seq: u64) -> Response<Bytes> {
+pub fn build_response(id: Option<u64>, script: &Script, req_body: &Bytes, seq: u64, resp_pad: Option<usize>) -> Response<Bytes> {
     let status = StatusCode::new(script.status).unwrap_or(StatusCode::Success);
     let body = if script.resp_len == 0 && script.seed == 0 {
         req_body.clone()
@@ -299,6 +301,9 @@ pub fn build_response(id: Option<u64>, script: &Script, req_body: &Bytes, seq: u
         resp.headers_mut().insert(H_ID.into(), id.to_string());
     }
     resp.headers_mut().insert(H_SEQ.into(), seq.to_string());
+    if let Some(n) = resp_pad {
+        resp.headers_mut().insert("p".into(), "x".repeat(n));
+    }
     resp
 }
 
@@ -320,6 +325,7 @@ impl tower::Service<Request<Bytes>> for HarnessService {
             .get(H_SCRIPT)
             .and_then(|s| Script::decode(s))
             .unwrap_or_default();
+        let resp_pad = req.headers().get(H_RESP_PAD).and_then(|s| s.parse::<usize>().ok());
         let from = req.peer_id().copied();
         let origin = req
             .extensions()
@@ -360,7 +366,7 @@ impl tower::Service<Request<Bytes>> for HarnessService {
                 tokio::time::sleep(Duration::from_micros(script.delay_us)).await;
             }
             let seq = log.next_seq.fetch_add(1, Ordering::SeqCst);
-            let resp = build_response(id, &script, &body, seq);
+            let resp = build_response(id, &script, &body, seq, resp_pad);
             let t = log.now();
             {
                 let mut g = log.lock();
